@@ -52,8 +52,12 @@ class MCMCSampler(Sampler):
         samples = Samples(
             x, xp=self.xp, dtype=self.dtype, parameters=self.parameters
         )
-        samples.log_prior = self.log_prior(samples)
-        samples.log_likelihood = self.log_likelihood(samples)
+        # As at every other call site: the user's functions may answer in
+        # another namespace than the samples live in
+        samples.log_prior = samples.array_to_namespace(self.log_prior(samples))
+        samples.log_likelihood = samples.array_to_namespace(
+            self.log_likelihood(samples)
+        )
         log_prob = (
             samples.log_likelihood
             + samples.log_prior
